@@ -234,602 +234,629 @@ func collectConsts(pr *Prog, facts map[string]interface{}) *leanFile {
 
 	putN := func(name string, v uint64) { lf.nat(name, v); facts["consts."+name] = v }
 	putS := func(name string, v string) { lf.strWithBytes(name, v); facts["consts."+name] = v }
+	var ok bool
 
 	// ---- internal/stream ----
-	lf.comment("internal/stream")
-	cs, ok := pkgConstUint(stream, "ChunkSize")
-	if !ok {
-		missing("stream.ChunkSize (exported constant)")
-	}
-	putN("chunkSize", cs)
-	// role: the byte-array fields of stream.Writer — the large one is the chunk buffer
-	// (ChunkSize + AEAD overhead), the small one the nonce.
-	var arrLens []uint64
-	if tn, ok := pkgObj(stream, "Writer").(*types.TypeName); ok {
-		if st, ok := tn.Type().Underlying().(*types.Struct); ok {
-			for i := 0; i < st.NumFields(); i++ {
-				if a, ok := st.Field(i).Type().Underlying().(*types.Array); ok && isByte(a.Elem()) {
-					arrLens = append(arrLens, uint64(a.Len()))
+	lf.section("internal/stream", func() {
+		lf.comment("internal/stream")
+		cs, ok := pkgConstUint(stream, "ChunkSize")
+		if !ok {
+			missing("stream.ChunkSize (exported constant)")
+		}
+		putN("chunkSize", cs)
+		// role: the byte-array fields of stream.Writer — the large one is the chunk buffer
+		// (ChunkSize + AEAD overhead), the small one the nonce.
+		var arrLens []uint64
+		if tn, ok := pkgObj(stream, "Writer").(*types.TypeName); ok {
+			if st, ok := tn.Type().Underlying().(*types.Struct); ok {
+				for i := 0; i < st.NumFields(); i++ {
+					if a, ok := st.Field(i).Type().Underlying().(*types.Array); ok && isByte(a.Elem()) {
+						arrLens = append(arrLens, uint64(a.Len()))
+					}
 				}
 			}
 		}
-	}
-	sort.Slice(arrLens, func(i, j int) bool { return arrLens[i] < arrLens[j] })
-	var enc, nonce uint64
-	if len(arrLens) >= 2 {
-		nonce, enc = arrLens[0], arrLens[len(arrLens)-1]
-	} else if v, ok := pkgConstUint(stream, "encChunkSize"); ok {
-		enc, nonce = v, 12
-		if len(arrLens) == 1 {
-			nonce = arrLens[0]
+		sort.Slice(arrLens, func(i, j int) bool { return arrLens[i] < arrLens[j] })
+		var enc, nonce uint64
+		if len(arrLens) >= 2 {
+			nonce, enc = arrLens[0], arrLens[len(arrLens)-1]
+		} else if v, ok := pkgConstUint(stream, "encChunkSize"); ok {
+			enc, nonce = v, 12
+			if len(arrLens) == 1 {
+				nonce = arrLens[0]
+			}
+		} else {
+			missing("stream.Writer's chunk buffer and nonce arrays (and no constant encChunkSize)")
 		}
-	} else {
-		missing("stream.Writer's chunk buffer and nonce arrays (and no constant encChunkSize)")
-	}
-	putN("encChunkSize", enc)
-	if enc < cs {
-		missing("stream: the chunk buffer (%d) is smaller than ChunkSize (%d)", enc, cs)
-	}
-	putN("encChunkOverhead", enc-cs)
-	putN("nonceSize", nonce)
-	// role: the constant stored into the last nonce byte: `nonce[len(nonce)-1] = X`
-	flag, found := uint64(0), false
-	for _, fi := range pr.All {
-		if fi.Pkg != stream || fi.Decl.Body == nil {
-			continue
+		putN("encChunkSize", enc)
+		if enc < cs {
+			missing("stream: the chunk buffer (%d) is smaller than ChunkSize (%d)", enc, cs)
 		}
-		ast.Inspect(fi.Decl.Body, func(n ast.Node) bool {
-			as, ok := n.(*ast.AssignStmt)
-			if !ok || len(as.Lhs) != 1 || len(as.Rhs) != 1 {
-				return true
+		putN("encChunkOverhead", enc-cs)
+		putN("nonceSize", nonce)
+		// role: the constant stored into the last nonce byte: `nonce[len(nonce)-1] = X`
+		flag, found := uint64(0), false
+		for _, fi := range pr.All {
+			if fi.Pkg != stream || fi.Decl.Body == nil {
+				continue
 			}
-			ix, ok := as.Lhs[0].(*ast.IndexExpr)
-			if !ok {
+			ast.Inspect(fi.Decl.Body, func(n ast.Node) bool {
+				as, ok := n.(*ast.AssignStmt)
+				if !ok || len(as.Lhs) != 1 || len(as.Rhs) != 1 {
+					return true
+				}
+				ix, ok := as.Lhs[0].(*ast.IndexExpr)
+				if !ok {
+					return true
+				}
+				be, ok := ix.Index.(*ast.BinaryExpr)
+				if !ok || be.Op != token.SUB {
+					return true
+				}
+				if c, ok := be.X.(*ast.CallExpr); !ok || !isBuiltin(stream.callee(c), "len") {
+					return true
+				}
+				if v, ok := stream.constInt(as.Rhs[0]); ok {
+					flag, found = v, true
+				}
 				return true
-			}
-			be, ok := ix.Index.(*ast.BinaryExpr)
-			if !ok || be.Op != token.SUB {
-				return true
-			}
-			if c, ok := be.X.(*ast.CallExpr); !ok || !isBuiltin(stream.callee(c), "len") {
-				return true
-			}
-			if v, ok := stream.constInt(as.Rhs[0]); ok {
+			})
+		}
+		if !found {
+			if v, ok := pkgConstUint(stream, "lastChunkFlag"); ok {
 				flag, found = v, true
 			}
-			return true
-		})
-	}
-	if !found {
-		if v, ok := pkgConstUint(stream, "lastChunkFlag"); ok {
-			flag, found = v, true
 		}
-	}
-	if !found {
-		missing("stream: the last-chunk flag (constant stored in the last nonce byte, or lastChunkFlag)")
-	}
-	putN("lastChunkFlag", flag)
-	lf.blank()
+		if !found {
+			missing("stream: the last-chunk flag (constant stored in the last nonce byte, or lastChunkFlag)")
+		}
+		putN("lastChunkFlag", flag)
+		lf.blank()
 
+	})
 	// ---- internal/format ----
-	lf.comment("internal/format")
-	mw := pr.mustMethod("internal/format", "Header", "MarshalWithoutMAC")
-	intro, ok := "", false
-	for _, c := range callsTo(mw, "io", "WriteString") {
-		if len(c.Args) == 2 {
-			if s, ok2 := format.constString(c.Args[1]); ok2 {
-				intro, ok = s, true
-				break
+	lf.section("internal/format", func() {
+		lf.comment("internal/format")
+		mw := pr.mustMethod("internal/format", "Header", "MarshalWithoutMAC")
+		intro, ok := "", false
+		for _, c := range callsTo(mw, "io", "WriteString") {
+			if len(c.Args) == 2 {
+				if s, ok2 := format.constString(c.Args[1]); ok2 {
+					intro, ok = s, true
+					break
+				}
 			}
 		}
-	}
-	if !ok {
-		intro, ok = pkgConstStr(format, "intro")
-	}
-	if !ok {
-		missing("format: the intro line (first io.WriteString in Header.MarshalWithoutMAC, or constant intro)")
-	}
-	putS("intro", intro)
-	// role: stanzaPrefix is what (*Stanza).Marshal writes first; footerPrefix what MarshalWithoutMAC formats last
-	sm := pr.mustMethod("internal/format", "Stanza", "Marshal")
-	sp, ok := "", false
-	for _, c := range callsIn(sm) {
-		if sel, ok2 := c.Fun.(*ast.SelectorExpr); ok2 && sel.Sel.Name == "Write" && len(c.Args) == 1 {
-			if s, ok3 := bytesVarValue(format, c.Args[0]); ok3 {
-				sp, ok = s, true
-				break
-			}
-		}
-	}
-	if !ok {
-		if v := pkgObj(format, "stanzaPrefix"); v != nil {
-			if init := varInit(format, v); init != nil {
-				sp, ok = format.bytesOfString(init)
-			}
-		}
-	}
-	if !ok {
-		missing("format: the stanza prefix (first Write in Stanza.Marshal, or var stanzaPrefix)")
-	}
-	putS("stanzaPrefix", sp)
-	fp, ok := "", false
-	for _, c := range callsTo(mw, "fmt", "Fprintf") {
-		for _, a := range c.Args[1:] {
-			if s, ok2 := bytesVarValue(format, a); ok2 {
-				fp, ok = s, true
-			}
-		}
-	}
-	if !ok {
-		if v := pkgObj(format, "footerPrefix"); v != nil {
-			if init := varInit(format, v); init != nil {
-				fp, ok = format.bytesOfString(init)
-			}
-		}
-	}
-	if !ok {
-		missing("format: the footer prefix (Fprintf argument in Header.MarshalWithoutMAC, or var footerPrefix)")
-	}
-	putS("footerPrefix", fp)
-	for _, nm := range [][2]string{{"ColumnsPerLine", "columnsPerLine"}, {"BytesPerLine", "bytesPerLine"}} {
-		v, ok := pkgConstUint(format, nm[0])
 		if !ok {
-			missing("format.%s (exported constant)", nm[0])
+			intro, ok = pkgConstStr(format, "intro")
 		}
-		putN(nm[1], v)
-	}
-	// the MAC length test in Parse: `len(h.MAC) != N`
-	lf.blank()
+		if !ok {
+			missing("format: the intro line (first io.WriteString in Header.MarshalWithoutMAC, or constant intro)")
+		}
+		putS("intro", intro)
+		// role: stanzaPrefix is what (*Stanza).Marshal writes first; footerPrefix what MarshalWithoutMAC formats last
+		sm := pr.mustMethod("internal/format", "Stanza", "Marshal")
+		sp, ok := "", false
+		for _, c := range callsIn(sm) {
+			if sel, ok2 := c.Fun.(*ast.SelectorExpr); ok2 && sel.Sel.Name == "Write" && len(c.Args) == 1 {
+				if s, ok3 := bytesVarValue(format, c.Args[0]); ok3 {
+					sp, ok = s, true
+					break
+				}
+			}
+		}
+		if !ok {
+			if v := pkgObj(format, "stanzaPrefix"); v != nil {
+				if init := varInit(format, v); init != nil {
+					sp, ok = format.bytesOfString(init)
+				}
+			}
+		}
+		if !ok {
+			missing("format: the stanza prefix (first Write in Stanza.Marshal, or var stanzaPrefix)")
+		}
+		putS("stanzaPrefix", sp)
+		fp, ok := "", false
+		for _, c := range callsTo(mw, "fmt", "Fprintf") {
+			for _, a := range c.Args[1:] {
+				if s, ok2 := bytesVarValue(format, a); ok2 {
+					fp, ok = s, true
+				}
+			}
+		}
+		if !ok {
+			if v := pkgObj(format, "footerPrefix"); v != nil {
+				if init := varInit(format, v); init != nil {
+					fp, ok = format.bytesOfString(init)
+				}
+			}
+		}
+		if !ok {
+			missing("format: the footer prefix (Fprintf argument in Header.MarshalWithoutMAC, or var footerPrefix)")
+		}
+		putS("footerPrefix", fp)
+		for _, nm := range [][2]string{{"ColumnsPerLine", "columnsPerLine"}, {"BytesPerLine", "bytesPerLine"}} {
+			v, ok := pkgConstUint(format, nm[0])
+			if !ok {
+				missing("format.%s (exported constant)", nm[0])
+			}
+			putN(nm[1], v)
+		}
+		// the MAC length test in Parse: `len(h.MAC) != N`
+		lf.blank()
 
+	})
 	// ---- package age: sizes ----
-	lf.comment("package age: sizes (role: the make() size of the buffers filled by rand.Read)")
-	encFn := pr.mustFn("", "Encrypt")
-	reads := callsTo(encFn, "crypto/rand", "Read")
-	var fks, sns uint64
-	ok = false
-	if len(reads) >= 2 {
-		a, ok1 := makeSizeOf(encFn, reads[0].Args[0])
-		b, ok2 := makeSizeOf(encFn, reads[len(reads)-1].Args[0])
-		if ok1 && ok2 {
-			fks, sns, ok = a, b, true
+	lf.section("package age: sizes", func() {
+		lf.comment("package age: sizes (role: the make() size of the buffers filled by rand.Read)")
+		encFn := pr.mustFn("", "Encrypt")
+		reads := callsTo(encFn, "crypto/rand", "Read")
+		var fks, sns uint64
+		ok = false
+		if len(reads) >= 2 {
+			a, ok1 := makeSizeOf(encFn, reads[0].Args[0])
+			b, ok2 := makeSizeOf(encFn, reads[len(reads)-1].Args[0])
+			if ok1 && ok2 {
+				fks, sns, ok = a, b, true
+			}
 		}
-	}
-	if !ok {
-		a, ok1 := pkgConstUint(age, "fileKeySize")
-		b, ok2 := pkgConstUint(age, "streamNonceSize")
-		if !ok1 || !ok2 {
-			missing("age.Encrypt: the sizes of the file key and of the payload nonce (rand.Read buffers, or constants fileKeySize/streamNonceSize)")
+		if !ok {
+			a, ok1 := pkgConstUint(age, "fileKeySize")
+			b, ok2 := pkgConstUint(age, "streamNonceSize")
+			if !ok1 || !ok2 {
+				missing("age.Encrypt: the sizes of the file key and of the payload nonce (rand.Read buffers, or constants fileKeySize/streamNonceSize)")
+			}
+			fks, sns = a, b
 		}
-		fks, sns = a, b
-	}
-	putN("fileKeySize", fks)
-	putN("streamNonceSize", sns)
-	scryptWrap := pr.mustMethod("", "ScryptRecipient", "Wrap")
-	var sss uint64
-	ok = false
-	if rs := callsTo(scryptWrap, "crypto/rand", "Read"); len(rs) >= 1 {
-		sss, ok = makeSizeOf(scryptWrap, rs[0].Args[0])
-	}
-	if !ok {
-		sss, ok = pkgConstUint(age, "scryptSaltSize")
-	}
-	if !ok {
-		missing("age.(*ScryptRecipient).Wrap: the salt size (rand.Read buffer, or constant scryptSaltSize)")
-	}
-	putN("scryptSaltSize", sss)
-	lf.blank()
+		putN("fileKeySize", fks)
+		putN("streamNonceSize", sns)
+		scryptWrap := pr.mustMethod("", "ScryptRecipient", "Wrap")
+		var sss uint64
+		ok = false
+		if rs := callsTo(scryptWrap, "crypto/rand", "Read"); len(rs) >= 1 {
+			sss, ok = makeSizeOf(scryptWrap, rs[0].Args[0])
+		}
+		if !ok {
+			sss, ok = pkgConstUint(age, "scryptSaltSize")
+		}
+		if !ok {
+			missing("age.(*ScryptRecipient).Wrap: the salt size (rand.Read buffer, or constant scryptSaltSize)")
+		}
+		putN("scryptSaltSize", sss)
+		lf.blank()
 
+	})
 	// ---- labels ----
-	lf.comment("labels (role: HKDF info / scrypt salt prefix / OAEP label at the Wrap sites)")
-	x25519Wrap := pr.mustMethod("", "X25519Recipient", "Wrap")
-	x25519Unwrap := pr.mustMethod("", "X25519Identity", "unwrap")
-	lbl, ok := allSame(hkdfInfos(x25519Wrap))
-	if !ok {
-		lbl, ok = pkgConstStr(age, "x25519Label")
-	}
-	if !ok {
-		missing("the X25519 HKDF label (info argument of hkdf.New in X25519Recipient.Wrap, or x25519Label)")
-	}
-	putS("x25519Label", lbl)
-	// scrypt: `append([]byte(label), salt...)`
-	scryptLabelOf := func(fi *FuncInfo) (string, bool) {
-		for _, c := range callsIn(fi) {
-			if isBuiltin(fi.Pkg.callee(c), "append") && len(c.Args) >= 1 {
-				if s, ok := fi.Pkg.bytesOfString(c.Args[0]); ok {
-					return s, true
+	lf.section("labels", func() {
+		lf.comment("labels (role: HKDF info / scrypt salt prefix / OAEP label at the Wrap sites)")
+		x25519Wrap := pr.mustMethod("", "X25519Recipient", "Wrap")
+		lbl, ok := allSame(hkdfInfos(x25519Wrap))
+		if !ok {
+			lbl, ok = pkgConstStr(age, "x25519Label")
+		}
+		if !ok {
+			missing("the X25519 HKDF label (info argument of hkdf.New in X25519Recipient.Wrap, or x25519Label)")
+		}
+		putS("x25519Label", lbl)
+		// scrypt: `append([]byte(label), salt...)`
+		scryptLabelOf := func(fi *FuncInfo) (string, bool) {
+			for _, c := range callsIn(fi) {
+				if isBuiltin(fi.Pkg.callee(c), "append") && len(c.Args) >= 1 {
+					if s, ok := fi.Pkg.bytesOfString(c.Args[0]); ok {
+						return s, true
+					}
 				}
 			}
+			return "", false
 		}
-		return "", false
-	}
-	lbl, ok = scryptLabelOf(scryptWrap)
-	if !ok {
-		lbl, ok = pkgConstStr(age, "scryptLabel")
-	}
-	if !ok {
-		missing("the scrypt salt label (append([]byte(label), salt...) in ScryptRecipient.Wrap, or scryptLabel)")
-	}
-	putS("scryptLabel", lbl)
-	rsaWrap := pr.mustMethod("agessh", "RSARecipient", "Wrap")
-	lbl, ok = "", false
-	for _, c := range callsTo(rsaWrap, "crypto/rsa", "EncryptOAEP") {
-		if len(c.Args) == 5 {
-			lbl, ok = agessh.bytesOfString(c.Args[4])
+		scryptWrap := pr.mustMethod("", "ScryptRecipient", "Wrap")
+		lbl, ok = scryptLabelOf(scryptWrap)
+		if !ok {
+			lbl, ok = pkgConstStr(age, "scryptLabel")
 		}
-	}
-	if !ok {
-		lbl, ok = pkgConstStr(agessh, "oaepLabel")
-	}
-	if !ok {
-		missing("the OAEP label (last argument of rsa.EncryptOAEP in RSARecipient.Wrap, or oaepLabel)")
-	}
-	putS("oaepLabel", lbl)
-	edWrap := pr.mustMethod("agessh", "Ed25519Recipient", "Wrap")
-	lbl, ok = allSame(hkdfInfos(edWrap))
-	if !ok {
-		lbl, ok = pkgConstStr(agessh, "ed25519Label")
-	}
-	if !ok {
-		missing("the ssh-ed25519 HKDF label (info argument of both hkdf.New calls in Ed25519Recipient.Wrap, or ed25519Label)")
-	}
-	putS("ed25519Label", lbl)
-	// every place a label-like byte string is used (both directions), as a sorted set
-	var labelSites [][]interface{}
-	pr.walkDecls(func(p *Pkg, file, fn string, fi *FuncInfo, d ast.Decl) {
-		if inCmd(file) {
-			return
+		if !ok {
+			missing("the scrypt salt label (append([]byte(label), salt...) in ScryptRecipient.Wrap, or scryptLabel)")
 		}
-		ast.Inspect(d, func(n ast.Node) bool {
-			call, ok := n.(*ast.CallExpr)
-			if !ok {
+		putS("scryptLabel", lbl)
+		rsaWrap := pr.mustMethod("agessh", "RSARecipient", "Wrap")
+		lbl, ok = "", false
+		for _, c := range callsTo(rsaWrap, "crypto/rsa", "EncryptOAEP") {
+			if len(c.Args) == 5 {
+				lbl, ok = agessh.bytesOfString(c.Args[4])
+			}
+		}
+		if !ok {
+			lbl, ok = pkgConstStr(agessh, "oaepLabel")
+		}
+		if !ok {
+			missing("the OAEP label (last argument of rsa.EncryptOAEP in RSARecipient.Wrap, or oaepLabel)")
+		}
+		putS("oaepLabel", lbl)
+		edWrap := pr.mustMethod("agessh", "Ed25519Recipient", "Wrap")
+		lbl, ok = allSame(hkdfInfos(edWrap))
+		if !ok {
+			lbl, ok = pkgConstStr(agessh, "ed25519Label")
+		}
+		if !ok {
+			missing("the ssh-ed25519 HKDF label (info argument of both hkdf.New calls in Ed25519Recipient.Wrap, or ed25519Label)")
+		}
+		putS("ed25519Label", lbl)
+		// every place a label-like byte string is used (both directions), as a sorted set
+		var labelSites [][]interface{}
+		pr.walkDecls(func(p *Pkg, file, fn string, fi *FuncInfo, d ast.Decl) {
+			if inCmd(file) {
+				return
+			}
+			ast.Inspect(d, func(n ast.Node) bool {
+				call, ok := n.(*ast.CallExpr)
+				if !ok {
+					return true
+				}
+				callee := p.callee(call)
+				for _, a := range call.Args {
+					if s, ok := p.bytesOfString(a); ok && strings.HasPrefix(s, "age-encryption.org/") {
+						labelSites = append(labelSites, []interface{}{file, fn, calleeName(callee), s})
+					}
+				}
 				return true
-			}
-			callee := p.callee(call)
-			for _, a := range call.Args {
-				if s, ok := p.bytesOfString(a); ok && strings.HasPrefix(s, "age-encryption.org/") {
-					labelSites = append(labelSites, []interface{}{file, fn, calleeName(callee), s})
-				}
-			}
-			return true
+			})
 		})
-	})
-	labelSites = dedupRows(labelSites)
-	sortRows(labelSites)
-	lf.comment("every use of a `[]byte(\"age-encryption.org/…\")` label: (file, function, callee it is passed to, value) — sorted, duplicates removed")
-	lf.tuples("labelSites", "String × String × String × String", labelSites)
-	facts["consts.labelSites"] = labelSites
-	lf.blank()
+		labelSites = dedupRows(labelSites)
+		sortRows(labelSites)
+		lf.comment("every use of a `[]byte(\"age-encryption.org/…\")` label: (file, function, callee it is passed to, value) — sorted, duplicates removed")
+		lf.tuples("labelSites", "String × String × String × String", labelSites)
+		facts["consts.labelSites"] = labelSites
+		lf.blank()
 
+	})
 	// ---- HKDF info strings ----
-	lf.comment("HKDF info strings (role: headerMAC = the function of package age that calls hmac.New; streamKey = the function whose result keys stream.NewWriter in Encrypt)")
-	var macFn *FuncInfo
-	for _, fi := range pr.All {
-		if fi.Pkg == age && len(callsTo(fi, "crypto/hmac", "New")) > 0 {
-			macFn = fi
-			break
-		}
-	}
-	if macFn == nil {
-		macFn = pr.fn("", "headerMAC")
-	}
-	if macFn == nil {
-		missing("the header MAC function (the function of package age calling hmac.New, or headerMAC)")
-	}
-	hi, ok := allSame(hkdfInfos(macFn))
-	if !ok || hi == "<non-constant>" {
-		missing("the HKDF info string of %s", macFn.Name)
-	}
-	putS("hkdfInfoHeader", hi)
-	lf.str("headerMacFunction", macFn.Qual())
-	var skFn *FuncInfo
-	for _, c := range callsTo(encFn, stream.Path, "NewWriter") {
-		if len(c.Args) >= 1 {
-			if inner, ok := ast.Unparen(c.Args[0]).(*ast.CallExpr); ok {
-				if f, ok := age.callee(inner).(*types.Func); ok {
-					skFn = pr.Funcs[f]
-				}
+	lf.section("HKDF info strings", func() {
+		lf.comment("HKDF info strings (role: headerMAC = the function of package age that calls hmac.New; streamKey = the function whose result keys stream.NewWriter in Encrypt)")
+		var macFn *FuncInfo
+		for _, fi := range pr.All {
+			if fi.Pkg == age && len(callsTo(fi, "crypto/hmac", "New")) > 0 {
+				macFn = fi
+				break
 			}
 		}
-	}
-	if skFn == nil {
-		skFn = pr.fn("", "streamKey")
-	}
-	if skFn == nil {
-		missing("the payload key function (the call that keys stream.NewWriter in Encrypt, or streamKey)")
-	}
-	pi, ok := allSame(hkdfInfos(skFn))
-	if !ok || pi == "<non-constant>" {
-		missing("the HKDF info string of %s", skFn.Name)
-	}
-	putS("hkdfInfoPayload", pi)
-	lf.str("streamKeyFunction", skFn.Qual())
-	lf.blank()
-
-	// ---- stanza type names ----
-	lf.comment("stanza type names as written by Wrap, and as tested by unwrap (`block.Type != \"…\"`)")
-	type wrapSite struct {
-		name string
-		fi   *FuncInfo
-	}
-	for _, w := range []wrapSite{{"stanzaTypeX25519", x25519Wrap}, {"stanzaTypeScrypt", scryptWrap}, {"stanzaTypeSshRsa", rsaWrap}, {"stanzaTypeSshEd25519", edWrap}} {
-		s, ok := stanzaTypeIn(w.fi)
-		if !ok {
-			missing("the stanza type string (Type: of the Stanza literal) in %s", w.fi.Qual())
+		if macFn == nil {
+			macFn = pr.fn("", "headerMAC")
 		}
-		putS(w.name, s)
-	}
-	var typeChecks [][]interface{}
-	for _, fi := range pr.All {
-		if fi.Pkg.IsMain || fi.Decl.Body == nil || (fi.Pkg != age && fi.Pkg != agessh) {
-			continue
+		if macFn == nil {
+			missing("the header MAC function (the function of package age calling hmac.New, or headerMAC)")
 		}
-		ast.Inspect(fi.Decl.Body, func(n ast.Node) bool {
-			be, ok := n.(*ast.BinaryExpr)
-			if !ok || (be.Op != token.NEQ && be.Op != token.EQL) {
-				return true
-			}
-			sel, ok := be.X.(*ast.SelectorExpr)
-			if !ok || sel.Sel.Name != "Type" {
-				return true
-			}
-			if s, ok := fi.Pkg.constString(be.Y); ok {
-				typeChecks = append(typeChecks, []interface{}{fi.Qual(), be.Op.String(), s})
-			}
-			return true
-		})
-	}
-	typeChecks = dedupRows(typeChecks)
-	sortRows(typeChecks)
-	lf.tuples("stanzaTypeChecks", "String × String × String", typeChecks)
-	facts["consts.stanzaTypeChecks"] = typeChecks
-	_ = x25519Unwrap
-	lf.blank()
-
-	// ---- scrypt ----
-	lf.comment("scrypt: every call of scrypt.Key (function, N expression, r, p, keyLen); defaults; setter bounds (setter, lowest legal, highest legal)")
-	var keyCalls [][]interface{}
-	for _, fi := range pr.All {
-		if fi.Decl.Body == nil {
-			continue
+		hi, ok := allSame(hkdfInfos(macFn))
+		if !ok || hi == "<non-constant>" {
+			missing("the HKDF info string of %s", macFn.Name)
 		}
-		for _, c := range callsTo(fi, "golang.org/x/crypto/scrypt", "Key") {
-			if len(c.Args) != 6 {
-				continue
-			}
-			r, ok1 := fi.Pkg.constInt(c.Args[3])
-			p, ok2 := fi.Pkg.constInt(c.Args[4])
-			kl, ok3 := fi.Pkg.constInt(c.Args[5])
-			if !ok1 || !ok2 || !ok3 {
-				missing("scrypt.Key call in %s with non-constant r/p/keyLen", fi.Qual())
-			}
-			keyCalls = append(keyCalls, []interface{}{fi.Qual(), nExprShape(fi, c.Args[2]), r, p, kl})
-		}
-	}
-	sortRows(keyCalls)
-	if len(keyCalls) == 0 {
-		missing("no call of scrypt.Key anywhere in the module")
-	}
-	lf.tuples("scryptKeyCalls", "String × String × Nat × Nat × Nat", keyCalls)
-	facts["consts.scryptKeyCalls"] = keyCalls
-	defWF := func(ctor, typ string) uint64 {
-		fi := pr.mustFn("", ctor)
-		var vals []uint64
-		ast.Inspect(fi.Decl.Body, func(n ast.Node) bool {
-			cl, ok := n.(*ast.CompositeLit)
-			if !ok {
-				return true
-			}
-			if nt, ok := age.Info.TypeOf(cl).(*types.Named); !ok || nt.Obj().Name() != typ {
-				return true
-			}
-			for _, el := range cl.Elts {
-				if kv, ok := el.(*ast.KeyValueExpr); ok {
-					if v, ok := age.constInt(kv.Value); ok {
-						if b, ok := age.Info.TypeOf(kv.Value).Underlying().(*types.Basic); ok && b.Info()&types.IsInteger != 0 {
-							vals = append(vals, v)
-						}
-					}
-				}
-			}
-			return true
-		})
-		if len(vals) != 1 {
-			missing("the default work factor: expected exactly one integer field in the %s literal of %s, found %d", typ, ctor, len(vals))
-		}
-		return vals[0]
-	}
-	putN("scryptDefaultWorkFactor", defWF("NewScryptRecipient", "ScryptRecipient"))
-	putN("scryptDefaultMaxWorkFactor", defWF("NewScryptIdentity", "ScryptIdentity"))
-	var bounds [][]interface{}
-	for _, s := range [][2]string{{"ScryptRecipient", "SetWorkFactor"}, {"ScryptIdentity", "SetMaxWorkFactor"}} {
-		fi := pr.mustMethod("", s[0], s[1])
-		lo, hi, okLo, okHi := uint64(0), uint64(0), false, false
-		ast.Inspect(fi.Decl.Body, func(n ast.Node) bool {
-			be, ok := n.(*ast.BinaryExpr)
-			if !ok {
-				return true
-			}
-			v, isC := age.constInt(be.Y)
-			if _, isId := be.X.(*ast.Ident); !isId || !isC {
-				return true
-			}
-			switch be.Op {
-			case token.GTR: // x > hi is illegal
-				hi, okHi = v, true
-			case token.GEQ:
-				hi, okHi = v-1, true
-			case token.LSS: // x < lo is illegal
-				lo, okLo = v, true
-			case token.LEQ:
-				lo, okLo = v+1, true
-			}
-			return true
-		})
-		if !okLo || !okHi {
-			missing("the range test of %s (param > hi || param < lo)", fi.Qual())
-		}
-		bounds = append(bounds, []interface{}{fi.Qual(), lo, hi})
-	}
-	lf.tuples("scryptSetterBounds", "String × Nat × Nat", bounds)
-	facts["consts.scryptSetterBounds"] = bounds
-	// the regular expression that guards strconv.Atoi
-	var res []string
-	for _, af := range age.Files {
-		for _, d := range af.Decls {
-			gd, ok := d.(*ast.GenDecl)
-			if !ok || gd.Tok != token.VAR {
-				continue
-			}
-			for _, s := range gd.Specs {
-				for _, v := range s.(*ast.ValueSpec).Values {
-					if c, ok := v.(*ast.CallExpr); ok && isFuncOf(age.callee(c), "regexp", "MustCompile") && len(c.Args) == 1 {
-						if pat, ok := age.constString(c.Args[0]); ok {
-							res = append(res, pat)
-						}
+		putS("hkdfInfoHeader", hi)
+		lf.str("headerMacFunction", macFn.Qual())
+		var skFn *FuncInfo
+		encFn := pr.mustFn("", "Encrypt")
+		for _, c := range callsTo(encFn, stream.Path, "NewWriter") {
+			if len(c.Args) >= 1 {
+				if inner, ok := ast.Unparen(c.Args[0]).(*ast.CallExpr); ok {
+					if f, ok := age.callee(inner).(*types.Func); ok {
+						skFn = pr.Funcs[f]
 					}
 				}
 			}
 		}
-	}
-	if len(res) != 1 {
-		missing("the work-factor syntax check: expected exactly one package-level regexp.MustCompile in package age, found %d", len(res))
-	}
-	putS("digitsRe", res[0])
-	lf.blank()
-
-	// ---- bech32 ----
-	lf.comment("internal/bech32 (role: the 32-character string and the []uint32 table at package level)")
-	var charset string
-	var gen []uint64
-	nCs, nGen := 0, 0
-	for _, name := range bech.Types.Scope().Names() {
-		obj := bech.Types.Scope().Lookup(name)
-		switch o := obj.(type) {
-		case *types.Const:
-			if s, ok := constStr(types.TypeAndValue{Value: o.Val()}); ok && len(s) == 32 {
-				charset = s
-				nCs++
-			}
-		case *types.Var:
-			init := varInit(bech, o)
-			if init == nil {
-				continue
-			}
-			if s, ok := bech.constString(init); ok && len(s) == 32 {
-				charset = s
-				nCs++
-			}
-			if cl, ok := init.(*ast.CompositeLit); ok {
-				if sl, ok := o.Type().Underlying().(*types.Slice); ok {
-					if b, ok := sl.Elem().Underlying().(*types.Basic); ok && b.Kind() == types.Uint32 {
-						gen = nil
-						for _, el := range cl.Elts {
-							v, ok := bech.constInt(el)
-							if !ok {
-								missing("bech32: non-constant element in %s", name)
-							}
-							gen = append(gen, v)
-						}
-						nGen++
-					}
-				}
-			}
+		if skFn == nil {
+			skFn = pr.fn("", "streamKey")
 		}
-	}
-	if nCs != 1 {
-		missing("bech32: expected exactly one package-level 32-character string (the charset), found %d", nCs)
-	}
-	if nGen != 1 {
-		missing("bech32: expected exactly one package-level []uint32 table (the generator), found %d", nGen)
-	}
-	putS("bech32Charset", charset)
-	lf.natList("bech32Generator", gen)
-	facts["consts.bech32Generator"] = gen
-	lf.blank()
-
-	// ---- armor ----
-	lf.comment("armor")
-	for _, nm := range [][2]string{{"Header", "armorHeader"}, {"Footer", "armorFooter"}} {
-		s, ok := pkgConstStr(armor, nm[0])
-		if !ok {
-			missing("armor.%s (exported constant)", nm[0])
+		if skFn == nil {
+			missing("the payload key function (the call that keys stream.NewWriter in Encrypt, or streamKey)")
 		}
-		putS(nm[1], s)
-	}
-	lf.blank()
+		pi, ok := allSame(hkdfInfos(skFn))
+		if !ok || pi == "<non-constant>" {
+			missing("the HKDF info string of %s", skFn.Name)
+		}
+		putS("hkdfInfoPayload", pi)
+		lf.str("streamKeyFunction", skFn.Qual())
+		lf.blank()
 
-	// ---- limits (model parameters: retuning one is a harmless change, so no Tie theorem pins them) ----
-	lf.comment("limits: every io.LimitReader(_, constant) as (file, function, limit); these are model parameters, not wire format")
-	var limits [][]interface{}
-	limitIn := map[string]uint64{}
-	pr.walkDecls(func(p *Pkg, file, fn string, fi *FuncInfo, d ast.Decl) {
-		ast.Inspect(d, func(n ast.Node) bool {
-			c, ok := n.(*ast.CallExpr)
-			if !ok || !isFuncOf(p.callee(c), "io", "LimitReader") || len(c.Args) != 2 {
-				return true
-			}
-			if v, ok := p.constInt(c.Args[1]); ok {
-				limits = append(limits, []interface{}{file, fn, v})
-				limitIn[file+"|"+fn] = v
-			}
-			return true
-		})
 	})
-	sortRows(limits)
-	lf.tuples("limitReaders", "String × String × Nat", limits)
-	facts["consts.limitReaders"] = limits
-	mwsp, ok := uint64(0), false
-	for k, v := range limitIn {
-		if strings.HasPrefix(k, "armor/") {
-			mwsp, ok = v, true
+	// ---- stanza type names ----
+	lf.section("stanza type names", func() {
+		lf.comment("stanza type names as written by Wrap, and as tested by unwrap (`block.Type != \"…\"`)")
+		type wrapSite struct {
+			name string
+			fi   *FuncInfo
 		}
-	}
-	if !ok {
-		mwsp, ok = anyConstUint(armor, "maxWhitespace")
-	}
-	if !ok {
-		missing("armor: the whitespace limit (io.LimitReader bound in package armor, or maxWhitespace)")
-	}
-	putN("maxWhitespace", mwsp)
-	for _, nm := range [][2]string{{"ParseIdentities", "privateKeySizeLimit"}, {"ParseRecipients", "recipientFileSizeLimit"}} {
-		fi := pr.mustFn("", nm[0])
-		v, ok := limitIn[fi.File+"|"+fi.Name]
-		if !ok {
-			v, ok = anyConstUint(age, nm[1])
+		x25519Wrap := pr.mustMethod("", "X25519Recipient", "Wrap")
+		scryptWrap := pr.mustMethod("", "ScryptRecipient", "Wrap")
+		rsaWrap := pr.mustMethod("agessh", "RSARecipient", "Wrap")
+		edWrap := pr.mustMethod("agessh", "Ed25519Recipient", "Wrap")
+		for _, w := range []wrapSite{{"stanzaTypeX25519", x25519Wrap}, {"stanzaTypeScrypt", scryptWrap}, {"stanzaTypeSshRsa", rsaWrap}, {"stanzaTypeSshEd25519", edWrap}} {
+			s, ok := stanzaTypeIn(w.fi)
+			if !ok {
+				missing("the stanza type string (Type: of the Stanza literal) in %s", w.fi.Qual())
+			}
+			putS(w.name, s)
 		}
-		if !ok {
-			missing("the size limit of age.%s (io.LimitReader bound, or %s)", nm[0], nm[1])
-		}
-		putN(nm[1], v)
-	}
-	lf.blank()
-
-	// ---- plugin names ----
-	lf.comment("plugin: the allow-list of plugin name characters (role: the function of package plugin that tests strings.ContainsRune(<constant>, r))")
-	var validator *FuncInfo
-	allowed := ""
-	for _, fi := range pr.All {
-		if fi.Pkg != plugin || fi.Decl.Body == nil {
-			continue
-		}
-		for _, c := range callsTo(fi, "strings", "ContainsRune") {
-			if len(c.Args) != 2 {
+		var typeChecks [][]interface{}
+		for _, fi := range pr.All {
+			if fi.Pkg.IsMain || fi.Decl.Body == nil || (fi.Pkg != age && fi.Pkg != agessh) {
 				continue
 			}
-			if s, ok := constOrLocalString(fi, c.Args[0]); ok && len(s) >= 10 {
-				if validator != nil && validator != fi {
-					missing("plugin: more than one function tests names against a constant character list (%s and %s)", validator.Name, fi.Name)
+			ast.Inspect(fi.Decl.Body, func(n ast.Node) bool {
+				be, ok := n.(*ast.BinaryExpr)
+				if !ok || (be.Op != token.NEQ && be.Op != token.EQL) {
+					return true
 				}
-				validator, allowed = fi, s
+				sel, ok := be.X.(*ast.SelectorExpr)
+				if !ok || sel.Sel.Name != "Type" {
+					return true
+				}
+				if s, ok := fi.Pkg.constString(be.Y); ok {
+					typeChecks = append(typeChecks, []interface{}{fi.Qual(), be.Op.String(), s})
+				}
+				return true
+			})
+		}
+		typeChecks = dedupRows(typeChecks)
+		sortRows(typeChecks)
+		lf.tuples("stanzaTypeChecks", "String × String × String", typeChecks)
+		facts["consts.stanzaTypeChecks"] = typeChecks
+		lf.blank()
+
+	})
+	// ---- scrypt ----
+	lf.section("scrypt", func() {
+		lf.comment("scrypt: every call of scrypt.Key (function, N expression, r, p, keyLen); defaults; setter bounds (setter, lowest legal, highest legal)")
+		var keyCalls [][]interface{}
+		for _, fi := range pr.All {
+			if fi.Decl.Body == nil {
+				continue
+			}
+			for _, c := range callsTo(fi, "golang.org/x/crypto/scrypt", "Key") {
+				if len(c.Args) != 6 {
+					continue
+				}
+				r, ok1 := fi.Pkg.constInt(c.Args[3])
+				p, ok2 := fi.Pkg.constInt(c.Args[4])
+				kl, ok3 := fi.Pkg.constInt(c.Args[5])
+				if !ok1 || !ok2 || !ok3 {
+					missing("scrypt.Key call in %s with non-constant r/p/keyLen", fi.Qual())
+				}
+				keyCalls = append(keyCalls, []interface{}{fi.Qual(), nExprShape(fi, c.Args[2]), r, p, kl})
 			}
 		}
-	}
-	if validator == nil {
-		missing("plugin: the name validator (a function calling strings.ContainsRune(<constant allow-list>, r))")
-	}
-	putS("pluginNameAllowed", allowed)
-	lf.str("pluginNameValidator", validator.Qual())
-	facts["consts.pluginNameValidator"] = validator.Qual()
+		sortRows(keyCalls)
+		if len(keyCalls) == 0 {
+			missing("no call of scrypt.Key anywhere in the module")
+		}
+		lf.tuples("scryptKeyCalls", "String × String × Nat × Nat × Nat", keyCalls)
+		facts["consts.scryptKeyCalls"] = keyCalls
+		defWF := func(ctor, typ string) uint64 {
+			fi := pr.mustFn("", ctor)
+			var vals []uint64
+			ast.Inspect(fi.Decl.Body, func(n ast.Node) bool {
+				cl, ok := n.(*ast.CompositeLit)
+				if !ok {
+					return true
+				}
+				if nt, ok := age.Info.TypeOf(cl).(*types.Named); !ok || nt.Obj().Name() != typ {
+					return true
+				}
+				for _, el := range cl.Elts {
+					if kv, ok := el.(*ast.KeyValueExpr); ok {
+						if v, ok := age.constInt(kv.Value); ok {
+							if b, ok := age.Info.TypeOf(kv.Value).Underlying().(*types.Basic); ok && b.Info()&types.IsInteger != 0 {
+								vals = append(vals, v)
+							}
+						}
+					}
+				}
+				return true
+			})
+			if len(vals) != 1 {
+				missing("the default work factor: expected exactly one integer field in the %s literal of %s, found %d", typ, ctor, len(vals))
+			}
+			return vals[0]
+		}
+		putN("scryptDefaultWorkFactor", defWF("NewScryptRecipient", "ScryptRecipient"))
+		putN("scryptDefaultMaxWorkFactor", defWF("NewScryptIdentity", "ScryptIdentity"))
+		var bounds [][]interface{}
+		for _, s := range [][2]string{{"ScryptRecipient", "SetWorkFactor"}, {"ScryptIdentity", "SetMaxWorkFactor"}} {
+			fi := pr.mustMethod("", s[0], s[1])
+			lo, hi, okLo, okHi := uint64(0), uint64(0), false, false
+			ast.Inspect(fi.Decl.Body, func(n ast.Node) bool {
+				be, ok := n.(*ast.BinaryExpr)
+				if !ok {
+					return true
+				}
+				v, isC := age.constInt(be.Y)
+				if _, isId := be.X.(*ast.Ident); !isId || !isC {
+					return true
+				}
+				switch be.Op {
+				case token.GTR: // x > hi is illegal
+					hi, okHi = v, true
+				case token.GEQ:
+					hi, okHi = v-1, true
+				case token.LSS: // x < lo is illegal
+					lo, okLo = v, true
+				case token.LEQ:
+					lo, okLo = v+1, true
+				}
+				return true
+			})
+			if !okLo || !okHi {
+				missing("the range test of %s (param > hi || param < lo)", fi.Qual())
+			}
+			bounds = append(bounds, []interface{}{fi.Qual(), lo, hi})
+		}
+		lf.tuples("scryptSetterBounds", "String × Nat × Nat", bounds)
+		facts["consts.scryptSetterBounds"] = bounds
+		// the regular expression that guards strconv.Atoi
+		var res []string
+		for _, af := range age.Files {
+			for _, d := range af.Decls {
+				gd, ok := d.(*ast.GenDecl)
+				if !ok || gd.Tok != token.VAR {
+					continue
+				}
+				for _, s := range gd.Specs {
+					for _, v := range s.(*ast.ValueSpec).Values {
+						if c, ok := v.(*ast.CallExpr); ok && isFuncOf(age.callee(c), "regexp", "MustCompile") && len(c.Args) == 1 {
+							if pat, ok := age.constString(c.Args[0]); ok {
+								res = append(res, pat)
+							}
+						}
+					}
+				}
+			}
+		}
+		if len(res) != 1 {
+			missing("the work-factor syntax check: expected exactly one package-level regexp.MustCompile in package age, found %d", len(res))
+		}
+		putS("digitsRe", res[0])
+		lf.blank()
+
+	})
+	// ---- bech32 ----
+	lf.section("bech32", func() {
+		lf.comment("internal/bech32 (role: the 32-character string and the []uint32 table at package level)")
+		var charset string
+		var gen []uint64
+		nCs, nGen := 0, 0
+		for _, name := range bech.Types.Scope().Names() {
+			obj := bech.Types.Scope().Lookup(name)
+			switch o := obj.(type) {
+			case *types.Const:
+				if s, ok := constStr(types.TypeAndValue{Value: o.Val()}); ok && len(s) == 32 {
+					charset = s
+					nCs++
+				}
+			case *types.Var:
+				init := varInit(bech, o)
+				if init == nil {
+					continue
+				}
+				if s, ok := bech.constString(init); ok && len(s) == 32 {
+					charset = s
+					nCs++
+				}
+				if cl, ok := init.(*ast.CompositeLit); ok {
+					if sl, ok := o.Type().Underlying().(*types.Slice); ok {
+						if b, ok := sl.Elem().Underlying().(*types.Basic); ok && b.Kind() == types.Uint32 {
+							gen = nil
+							for _, el := range cl.Elts {
+								v, ok := bech.constInt(el)
+								if !ok {
+									missing("bech32: non-constant element in %s", name)
+								}
+								gen = append(gen, v)
+							}
+							nGen++
+						}
+					}
+				}
+			}
+		}
+		if nCs != 1 {
+			missing("bech32: expected exactly one package-level 32-character string (the charset), found %d", nCs)
+		}
+		if nGen != 1 {
+			missing("bech32: expected exactly one package-level []uint32 table (the generator), found %d", nGen)
+		}
+		putS("bech32Charset", charset)
+		lf.natList("bech32Generator", gen)
+		facts["consts.bech32Generator"] = gen
+		lf.blank()
+
+	})
+	// ---- armor ----
+	lf.section("armor", func() {
+		lf.comment("armor")
+		for _, nm := range [][2]string{{"Header", "armorHeader"}, {"Footer", "armorFooter"}} {
+			s, ok := pkgConstStr(armor, nm[0])
+			if !ok {
+				missing("armor.%s (exported constant)", nm[0])
+			}
+			putS(nm[1], s)
+		}
+		lf.blank()
+
+	})
+	// ---- limits (model parameters: retuning one is a harmless change, so no Tie theorem pins them) ----
+	lf.section("limits (model parameters: retuning one is a harmless change, so no Tie theorem pins them)", func() {
+		lf.comment("limits: every io.LimitReader(_, constant) as (file, function, limit); these are model parameters, not wire format")
+		var limits [][]interface{}
+		limitIn := map[string]uint64{}
+		pr.walkDecls(func(p *Pkg, file, fn string, fi *FuncInfo, d ast.Decl) {
+			ast.Inspect(d, func(n ast.Node) bool {
+				c, ok := n.(*ast.CallExpr)
+				if !ok || !isFuncOf(p.callee(c), "io", "LimitReader") || len(c.Args) != 2 {
+					return true
+				}
+				if v, ok := p.constInt(c.Args[1]); ok {
+					limits = append(limits, []interface{}{file, fn, v})
+					limitIn[file+"|"+fn] = v
+				}
+				return true
+			})
+		})
+		sortRows(limits)
+		lf.tuples("limitReaders", "String × String × Nat", limits)
+		facts["consts.limitReaders"] = limits
+		mwsp, ok := uint64(0), false
+		for k, v := range limitIn {
+			if strings.HasPrefix(k, "armor/") {
+				mwsp, ok = v, true
+			}
+		}
+		if !ok {
+			mwsp, ok = anyConstUint(armor, "maxWhitespace")
+		}
+		if !ok {
+			missing("armor: the whitespace limit (io.LimitReader bound in package armor, or maxWhitespace)")
+		}
+		putN("maxWhitespace", mwsp)
+		for _, nm := range [][2]string{{"ParseIdentities", "privateKeySizeLimit"}, {"ParseRecipients", "recipientFileSizeLimit"}} {
+			fi := pr.mustFn("", nm[0])
+			v, ok := limitIn[fi.File+"|"+fi.Name]
+			if !ok {
+				v, ok = anyConstUint(age, nm[1])
+			}
+			if !ok {
+				missing("the size limit of age.%s (io.LimitReader bound, or %s)", nm[0], nm[1])
+			}
+			putN(nm[1], v)
+		}
+		lf.blank()
+
+	})
+	// ---- plugin names ----
+	lf.section("plugin names", func() {
+		lf.comment("plugin: the allow-list of plugin name characters (role: the function of package plugin that tests strings.ContainsRune(<constant>, r))")
+		var validator *FuncInfo
+		allowed := ""
+		for _, fi := range pr.All {
+			if fi.Pkg != plugin || fi.Decl.Body == nil {
+				continue
+			}
+			for _, c := range callsTo(fi, "strings", "ContainsRune") {
+				if len(c.Args) != 2 {
+					continue
+				}
+				if s, ok := constOrLocalString(fi, c.Args[0]); ok && len(s) >= 10 {
+					if validator != nil && validator != fi {
+						missing("plugin: more than one function tests names against a constant character list (%s and %s)", validator.Name, fi.Name)
+					}
+					validator, allowed = fi, s
+				}
+			}
+		}
+		if validator == nil {
+			missing("plugin: the name validator (a function calling strings.ContainsRune(<constant allow-list>, r))")
+		}
+		putS("pluginNameAllowed", allowed)
+		lf.str("pluginNameValidator", validator.Qual())
+		facts["consts.pluginNameValidator"] = validator.Qual()
+	})
 	return lf
 }
 
